@@ -81,7 +81,7 @@ def homogeneity(rep, name, known_literals=None):
                 vd[k] = Fraction(1 if k.startswith(sp.pol) else 0)
         want = Fraction(sp.homog) if grading == "length" else Fraction(1)
         for i, p in enumerate(paths, 1):
-            dc = DimCheck(vd, {})
+            dc = DimCheck(vd, {k: (v[0], v[1]) if grading == "length" else (v[2], v[3]) for k, v in getattr(sp, "stub_rules", {}).items()})
             try:
                 for t in p["pc"]:
                     dc.deg(t)
@@ -147,3 +147,66 @@ def chirality_contract(rep):
             r_ = dict(r_, status="unknown", reason="check_chirality does not meet the contract assumed by the Tetrahedron wrapper's proof: the wrapper obligations no longer apply")
         rep.obligation(nm, r_, fn["function"])
     return fails
+
+
+def point_inside_symmetry(rep):
+    """tetrahedron.point_inside is symmetric under the exchange of vertices 2 and 3 (what check_chirality may do): the Tetrahedron wrapper's proof
+    assumes it.  The real code is run on the generic row with the vertices as given and exchanged; both results are conjunctions of the same seven
+    comparisons of barycentric coordinates (cofactor / determinant terms); each comparison of the first run is matched with one of the second whose
+    difference is the zero rational function (exact polynomial normal form, engine/ratpoly.py)"""
+    from engine import ratpoly
+    from engine.rowgen import G
+
+    name = "point_inside"
+    sp = CORES[name]
+    fn = describe(sp.real())
+    rep.function(fn)
+    args = sp.fresh_args()
+    r1 = [p for p in sp.run("-", args=args) if "out" in p]
+    V = args["vertices"]
+    blk = V.blocks[0].copy()
+    blk[[2, 3]] = blk[[3, 2]]
+    r2 = [p for p in sp.run("-", args=dict(args, vertices=G([blk], 0, V.tag, V.layout))) if "out" in p]
+    report_problems(rep, sp, name, fn["function"])
+    nm = "core.point_inside.symmetric-under-exchange-of-vertices-2-and-3"
+    if len(r1) != 1 or len(r2) != 1:
+        rep.obligation(nm, {"status": "unknown", "backend": "symex", "time_s": 0, "reason": f"{len(r1)} / {len(r2)} paths"}, fn["function"])
+        return []
+
+    def strip(o):
+        return o.arg(0) if o.decl().kind() == z3.Z3_OP_ITE and not z3.is_bool(o) else o
+
+    def atoms(b):
+        if z3.is_and(b):
+            return [a for c in b.children() for a in atoms(c)]
+        return [b]
+
+    def norm(a):
+        k = a.decl().kind()
+        if k == z3.Z3_OP_GE:
+            return a.arg(0), a.arg(1)
+        if k == z3.Z3_OP_LE:
+            return a.arg(1), a.arg(0)
+        raise ValueError(f"atom {a.decl()}")
+
+    try:
+        cache = {}
+        A1 = [norm(a) for a in atoms(strip(r1[0]["out"][0]))]
+        A2 = [norm(a) for a in atoms(strip(r2[0]["out"][0]))]
+        Q1 = [ratpoly.from_z3(l, cache) - ratpoly.from_z3(r, cache) for l, r in A1]
+        Q2 = [ratpoly.from_z3(l, cache) - ratpoly.from_z3(r, cache) for l, r in A2]
+    except ValueError as e:
+        rep.obligation(nm, {"status": "unknown", "backend": "rational-normal-form", "time_s": 0, "reason": f"result is not a conjunction of >= / <= comparisons of rational terms: {e}"}, fn["function"])
+        return []
+    used, ok = set(), len(Q1) == len(Q2)
+    for q in Q1:
+        j = next((j for j, q2 in enumerate(Q2) if j not in used and q.same(q2)), None)
+        if j is None:
+            ok = False
+            break
+        used.add(j)
+    # as for check_chirality: a callee that misses the contract its caller's proof assumes makes the caller's obligations undecided, not violated
+    st = {"status": "discharged", "backend": f"rational-normal-form({len(Q1)} comparisons matched)", "time_s": 0} if ok else \
+        {"status": "unknown", "backend": "rational-normal-form", "time_s": 0, "reason": "the comparisons of the two runs cannot be matched: the symmetry assumed by the Tetrahedron wrapper's proof is not established"}
+    rep.obligation(nm, st, fn["function"])
+    return []
